@@ -175,8 +175,8 @@ func C14(c *core.Ctx) {
 			}
 			ps := locPositions(f.location)
 			strand := 1
-			if len(ps) > 1 && ps[0] > ps[len(ps)-1] {
-				strand = -1
+			if strings.Contains(f.location, "complement(") {
+				strand = -1 // what the location says; the order of the positions is no evidence (origin-spanning genes)
 			}
 			if f.codonStart > 1 {
 				ps = ps[f.codonStart-1:]
